@@ -385,3 +385,41 @@ package interpreter
 //@   assigns (. s stk) (elems (. s stk))
 //@ func interpreter.(*stack).PushInt
 //@   assigns (. s stk) (elems (. s stk))
+
+// ---- C19 (partial): the snapshot handed to debugger callbacks shares no stack memory with the running engine ----
+//@ func interpreter.(*thread).State
+//@   bytes token
+//@   opt frame-all 1
+//@   opt closed-heaps 1
+//@   opt make-zero 1
+//@   fresh result
+//@   requires (>= (len (. t scripts)) 1)
+//@   ensures[C19.snap_fresh] (and (not (nil? result)) (fresh result))
+//@   ensures[C19.snap_arrays] (and (fresh result) (fresh (. result DataStack)) (fresh (. result AltStack)) (fresh (. result ElseStack)) (fresh (. result SavedFirstStack)) (fresh (. result Scripts)) (fresh (. result CondStack)) (= (len (. result DataStack)) (len (. (. t dstack) stk))) (= (len (. result AltStack)) (len (. (. t astack) stk))) (= (len (. result SavedFirstStack)) (len (. t savedFirstStack))) (= (len (. result Scripts)) (len (. t scripts))))
+//@   ensures[C19.snap_data] (forall ((k Int)) (=> (and (<= 0 k) (< k (len (. result DataStack)))) (and (fresh (at (. result DataStack) k)) (allocated (at (. result DataStack) k)) (= (len (at (. result DataStack) k)) (len (at (. (. t dstack) stk) k))))))
+//@   ensures[C19.snap_alt] (forall ((k Int)) (=> (and (<= 0 k) (< k (len (. result AltStack)))) (and (fresh (at (. result AltStack) k)) (allocated (at (. result AltStack) k)) (= (len (at (. result AltStack) k)) (len (at (. (. t astack) stk) k))))))
+//@   ensures[C19.snap_else] (forall ((k Int)) (=> (and (<= 0 k) (< k (len (. result ElseStack)))) (and (or (nil? (at (. result ElseStack) k)) (fresh (at (. result ElseStack) k))) (allocated (at (. result ElseStack) k)))))
+//@   ensures[C19.snap_saved] (forall ((k Int)) (=> (and (<= 0 k) (< k (len (. result SavedFirstStack)))) (and (fresh (at (. result SavedFirstStack) k)) (allocated (at (. result SavedFirstStack) k)) (= (len (at (. result SavedFirstStack) k)) (len (at (. t savedFirstStack) k))))))
+//@   ensures[C19.snap_scripts] (forall ((k Int)) (=> (and (<= 0 k) (< k (len (. result Scripts)))) (and (fresh (at (. result Scripts) k)) (= (len (at (. result Scripts) k)) (len (at (. t scripts) k))))))
+//@   loop 0 invariant (and (fresh ts) (fresh (. ts DataStack)) (fresh (. ts AltStack)) (fresh (. ts ElseStack)) (fresh (. ts SavedFirstStack)) (fresh (. ts Scripts)) (fresh (. ts CondStack)) (= (len (. ts DataStack)) (len (. (. t dstack) stk))) (= (len (. ts AltStack)) (len (. (. t astack) stk))) (= (len (. ts SavedFirstStack)) (len (. t savedFirstStack))) (= (len (. ts Scripts)) (len (. t scripts))))
+//@   loop 0 invariant (forall ((k Int)) (=> (and (<= 0 k) (<= k rangeindex)) (and (fresh (at (. ts DataStack) k)) (allocated (at (. ts DataStack) k)) (= (len (at (. ts DataStack) k)) (len (at (. (. t dstack) stk) k))))))
+//@   loop 0 invariant (forall ((k Int)) (=> (and (<= 0 k) (< k (len (. ts ElseStack)))) (nil? (at (. ts ElseStack) k))))
+//@   loop 1 invariant (and (fresh ts) (fresh (. ts DataStack)) (fresh (. ts AltStack)) (fresh (. ts ElseStack)) (fresh (. ts SavedFirstStack)) (fresh (. ts Scripts)) (fresh (. ts CondStack)) (= (len (. ts DataStack)) (len (. (. t dstack) stk))) (= (len (. ts AltStack)) (len (. (. t astack) stk))) (= (len (. ts SavedFirstStack)) (len (. t savedFirstStack))) (= (len (. ts Scripts)) (len (. t scripts))))
+//@   loop 1 invariant (forall ((k Int)) (=> (and (<= 0 k) (< k (len (. ts DataStack)))) (and (fresh (at (. ts DataStack) k)) (allocated (at (. ts DataStack) k)) (= (len (at (. ts DataStack) k)) (len (at (. (. t dstack) stk) k))))))
+//@   loop 1 invariant (forall ((k Int)) (=> (and (<= 0 k) (<= k rangeindex)) (and (fresh (at (. ts AltStack) k)) (allocated (at (. ts AltStack) k)) (= (len (at (. ts AltStack) k)) (len (at (. (. t astack) stk) k))))))
+//@   loop 1 invariant (forall ((k Int)) (=> (and (<= 0 k) (< k (len (. ts ElseStack)))) (nil? (at (. ts ElseStack) k))))
+//@   loop 2 invariant (and (fresh ts) (fresh (. ts DataStack)) (fresh (. ts AltStack)) (fresh (. ts ElseStack)) (fresh (. ts SavedFirstStack)) (fresh (. ts Scripts)) (fresh (. ts CondStack)) (= (len (. ts DataStack)) (len (. (. t dstack) stk))) (= (len (. ts AltStack)) (len (. (. t astack) stk))) (= (len (. ts SavedFirstStack)) (len (. t savedFirstStack))) (= (len (. ts Scripts)) (len (. t scripts))))
+//@   loop 2 invariant (forall ((k Int)) (=> (and (<= 0 k) (< k (len (. ts DataStack)))) (and (fresh (at (. ts DataStack) k)) (allocated (at (. ts DataStack) k)) (= (len (at (. ts DataStack) k)) (len (at (. (. t dstack) stk) k))))))
+//@   loop 2 invariant (forall ((k Int)) (=> (and (<= 0 k) (< k (len (. ts AltStack)))) (and (fresh (at (. ts AltStack) k)) (allocated (at (. ts AltStack) k)) (= (len (at (. ts AltStack) k)) (len (at (. (. t astack) stk) k))))))
+//@   loop 2 invariant (forall ((k Int)) (=> (and (<= 0 k) (< k (len (. ts ElseStack)))) (and (or (nil? (at (. ts ElseStack) k)) (fresh (at (. ts ElseStack) k))) (allocated (at (. ts ElseStack) k)))))
+//@   loop 3 invariant (and (fresh ts) (fresh (. ts DataStack)) (fresh (. ts AltStack)) (fresh (. ts ElseStack)) (fresh (. ts SavedFirstStack)) (fresh (. ts Scripts)) (fresh (. ts CondStack)) (= (len (. ts DataStack)) (len (. (. t dstack) stk))) (= (len (. ts AltStack)) (len (. (. t astack) stk))) (= (len (. ts SavedFirstStack)) (len (. t savedFirstStack))) (= (len (. ts Scripts)) (len (. t scripts))))
+//@   loop 3 invariant (forall ((k Int)) (=> (and (<= 0 k) (< k (len (. ts DataStack)))) (and (fresh (at (. ts DataStack) k)) (allocated (at (. ts DataStack) k)) (= (len (at (. ts DataStack) k)) (len (at (. (. t dstack) stk) k))))))
+//@   loop 3 invariant (forall ((k Int)) (=> (and (<= 0 k) (< k (len (. ts AltStack)))) (and (fresh (at (. ts AltStack) k)) (allocated (at (. ts AltStack) k)) (= (len (at (. ts AltStack) k)) (len (at (. (. t astack) stk) k))))))
+//@   loop 3 invariant (forall ((k Int)) (=> (and (<= 0 k) (< k (len (. ts ElseStack)))) (and (or (nil? (at (. ts ElseStack) k)) (fresh (at (. ts ElseStack) k))) (allocated (at (. ts ElseStack) k)))))
+//@   loop 3 invariant (forall ((k Int)) (=> (and (<= 0 k) (<= k rangeindex)) (and (fresh (at (. ts SavedFirstStack) k)) (allocated (at (. ts SavedFirstStack) k)) (= (len (at (. ts SavedFirstStack) k)) (len (at (. t savedFirstStack) k))))))
+//@   loop 4 invariant (and (fresh ts) (fresh (. ts DataStack)) (fresh (. ts AltStack)) (fresh (. ts ElseStack)) (fresh (. ts SavedFirstStack)) (fresh (. ts Scripts)) (fresh (. ts CondStack)) (= (len (. ts DataStack)) (len (. (. t dstack) stk))) (= (len (. ts AltStack)) (len (. (. t astack) stk))) (= (len (. ts SavedFirstStack)) (len (. t savedFirstStack))) (= (len (. ts Scripts)) (len (. t scripts))))
+//@   loop 4 invariant (forall ((k Int)) (=> (and (<= 0 k) (< k (len (. ts DataStack)))) (and (fresh (at (. ts DataStack) k)) (allocated (at (. ts DataStack) k)) (= (len (at (. ts DataStack) k)) (len (at (. (. t dstack) stk) k))))))
+//@   loop 4 invariant (forall ((k Int)) (=> (and (<= 0 k) (< k (len (. ts AltStack)))) (and (fresh (at (. ts AltStack) k)) (allocated (at (. ts AltStack) k)) (= (len (at (. ts AltStack) k)) (len (at (. (. t astack) stk) k))))))
+//@   loop 4 invariant (forall ((k Int)) (=> (and (<= 0 k) (< k (len (. ts ElseStack)))) (and (or (nil? (at (. ts ElseStack) k)) (fresh (at (. ts ElseStack) k))) (allocated (at (. ts ElseStack) k)))))
+//@   loop 4 invariant (forall ((k Int)) (=> (and (<= 0 k) (< k (len (. ts SavedFirstStack)))) (and (fresh (at (. ts SavedFirstStack) k)) (allocated (at (. ts SavedFirstStack) k)) (= (len (at (. ts SavedFirstStack) k)) (len (at (. t savedFirstStack) k))))))
+//@   loop 4 invariant (forall ((k Int)) (=> (and (<= 0 k) (<= k rangeindex)) (and (fresh (at (. ts Scripts) k)) (allocated (at (. ts Scripts) k)) (= (len (at (. ts Scripts) k)) (len (at (. t scripts) k))))))
